@@ -153,15 +153,28 @@ def run(W, p):
     F = StageForce(W, lambda k, c: [U[(k, c, n)] for n in range(npart)])
     T = trk.Tracker(advection=adv, diffusion=D, modules=dict(state=S, grid=grid, forcing=F, time=Timer(dt)))
     W.patch_rng(T)
+    # the diffusive velocity is whatever Tracker.diffuse hands out (its size and its draws are C11's subject): the oracle must not
+    # depend on how the generator is called (two calls of size n, one of shape (2, n), ...)
+    rec = {}
+    if p["diff"] and callable(getattr(T, "diffuse", None)):
+        def diffuse(*a, _orig=T.diffuse, **k):
+            rec["uv"] = _orig(*a, **k)
+            return rec["uv"]
+
+        T.diffuse = diffuse
     T.update()
     X1, Y1, A1, Act1 = W.tolist(S.X), W.tolist(S.Y), W.tolist(S.alive), W.tolist(S.active)
+    if "uv" in rec:
+        du, dv = W.tolist(rec["uv"][0]), W.tolist(rec["uv"][1])
     dx, dy = 800, 1600  # the grid file has pm = 1/800, pn = 1/1600
     bw = [W.frac(*b) if isinstance(b, tuple) else b for b in BWEIGHTS[adv]]
     skel = []
     for n in range(npart):
         ue = sum(bw[k] * U[(k, "u", n)] for k in range(ns))
         ve = sum(bw[k] * U[(k, "v", n)] for k in range(ns))
-        if p["diff"]:
+        if p["diff"] and "uv" in rec:
+            ue, ve = ue + du[n], ve + dv[n]
+        elif p["diff"]:  # no diffuse method any more: two generator calls, U first
             sd = _sqrt(W, 2 * D / dt)
             ue = ue + sd * W.xi(0, n)
             ve = ve + sd * W.xi(1, n)
